@@ -125,6 +125,9 @@ def main_check(pid, tier, seed):
             results.append(f.result())
     agg = aggregate(results)
 
+    if hasattr(mod, 'finalize'):
+        agg['violations'].extend(mod.finalize(agg) or [])
+
     # ---- classify violations against the committed known-findings file
     known = findings.load(pid)
     fresh, absorbed = [], {}
